@@ -145,7 +145,11 @@ def unsupplied_junctions(net, mg=None, slacks=None, respect_valves=True):
 
     mg = mg or create_nxgraph(net, respect_status_valves=respect_valves)
     if slacks is None:
-        slacks = set(net.ext_grid[net.ext_grid.in_service].junction.values)
+        eg = net.ext_grid[net.ext_grid.in_service.values]
+        slacks = set(eg.junction[eg.type.astype(str).str.contains("p").values].values)
+        for cp in ("circ_pump_mass", "circ_pump_pressure"):
+            if cp in net and len(net[cp]):
+                slacks |= set(net[cp].flow_junction[net[cp].in_service.values].values)
     not_supplied = set()
     for cc in nx.connected_components(mg):
         if not set(cc) & slacks:
